@@ -81,6 +81,8 @@ def default_policy(prog, stop=()):
     def pol(site, tgt, how):
         if tgt.path in stop:
             return False
+        if tgt.raw.get("impl_trait") == "std::iter::Iterator" and tgt.path.endswith("::next"):
+            return False        # the iteration protocol stays visible: `next` calls are what rules recognise loops by
         if how == "direct":
             return not tgt.reachable or tgt.is_closure
         if how == "param":
@@ -109,7 +111,11 @@ def flatten(prog, body, policy=None, depth=4, max_blocks=6000, env0=None):
         d, stack, env = meta[i]
         if t["k"] == "call" and not blk.get("cleanup") and d < depth:
             ob = prog.bodies[origin[i][0]]
-            osite = Site(ob, origin[i][1], ob.blocks[origin[i][1]]["term"])
+            if _desugar_iter(prog, blocks, origin, meta, locals_, names, lorigin, inlined, i, d, stack, env, max_blocks):
+                i += 1
+                continue
+            # (a synthetic call - the `next` of a desugared adaptor - is resolved by its own terminator)
+            osite = Site(ob, origin[i][1], t if blk.get("synth") else ob.blocks[origin[i][1]]["term"])
             tgts = [(tg, how) for tg, how in prog.call_targets(osite) if how != "extern-cb"]
             if len(tgts) != 1 and env and (t.get("callee") or {}).get("_np") in FN_TRAIT_CALLS:
                 # a call of a generic `F`: in this inlining context the parameter is bound to one closure
@@ -137,6 +143,180 @@ def flatten(prog, body, policy=None, depth=4, max_blocks=6000, env0=None):
 
 TRY_BRANCH = "std::ops::Try::branch"
 FROM_RESIDUAL = "std::ops::FromResidual::from_residual"
+
+# Whole-iteration adaptors of std::iter::Iterator that run a closure once per item.  In a flat view the call is
+# replaced by the loop it stands for - `loop { match iter.next() { Some(x) => closure(acc, x) .., None => break } }` -
+# with the closure body inlined, so that every rule that understands a `for` loop understands the adaptor form
+# of the same code (`for e in it { .. }`  <->  `it.try_for_each(|e| ..)`, `try_fold`, `for_each`, `fold`).
+ITER_LOOPS = {"std::iter::Iterator::try_fold": "try_fold", "std::iter::Iterator::try_for_each": "try_for_each",
+              "std::iter::Iterator::for_each": "for_each", "std::iter::Iterator::fold": "fold"}
+
+
+def _intern_type(prog, desc):
+    """Index of a type equal to `desc` (by its rendered form), appended to the type table if new."""
+    cache = prog.__dict__.setdefault("_synth_types", {})
+    k = desc["s"]
+    if k in cache:
+        return cache[k]
+    for ix, t in enumerate(prog.types):
+        if t.get("s") == k and t.get("k") == desc.get("k"):
+            cache[k] = ix
+            return ix
+    prog.types.append(desc)
+    cache[k] = len(prog.types) - 1
+    return cache[k]
+
+
+def _desugar_iter(prog, blocks, origin, meta, locals_, names, lorigin, inlined, i, d, stack, env, max_blocks):
+    blk = blocks[i]
+    t = blk["term"]
+    c = t.get("callee") or {}
+    kind = ITER_LOOPS.get(c.get("_np") or "") or ITER_LOOPS.get((c.get("path") or "").split("<")[0])
+    if kind is None or c.get("local") or t.get("t") is None:
+        return False
+    args = t["args"]
+    want = 3 if kind in ("try_fold", "fold") else 2
+    if len(args) != want:
+        return False
+    cpl = args[-1].get("move") or args[-1].get("copy")
+    ipl = args[0].get("move") or args[0].get("copy")
+    if cpl is None or cpl["p"] or ipl is None or ipl["p"] or t["dest"]["p"]:
+        return False
+    cd = prog.closure_def_of_type(locals_[cpl["l"]])
+    tgt = prog.bodies.get(cd) if cd else None
+    if tgt is None or tgt.path in stack or len(tgt.blocks) + len(blocks) + 8 > max_blocks:
+        return False
+    if tgt.argc != want:            # (closure env, [acc,] item)
+        return False
+    span = blk["span"]
+    line = span.get("line", 0)
+    okey = origin[i]
+    m = (d + 1, stack + (tgt.path,), dict(env))
+
+    def new_local(ty):
+        locals_.append(ty)
+        lorigin.append((okey[0], -1))
+        return len(locals_) - 1
+
+    def asg(lhs, rv):
+        return {"k": "assign", "lhs": lhs if isinstance(lhs, dict) else {"l": lhs, "p": []}, "rv": rv, "line": line,
+                "exp": False, "expk": None}
+
+    def use(op):
+        return {"k": "use", "op": op}
+
+    def add_block(stmts, term, synth=True):
+        blocks.append({"cleanup": False, "stmts": stmts, "term": term, "span": span, "synth": synth})
+        origin.append(okey)
+        meta.append(m)
+        return len(blocks) - 1
+    item_ty = tgt.locals[tgt.argc]
+    ret_ty = tgt.locals[0]
+    iter_ty = locals_[ipl["l"]]
+    it = prog.types[iter_ty]
+    # the iterator as `&mut I`
+    pre = []
+    if it.get("k") == "ref" and it.get("mut"):
+        iref = ipl["l"]
+        self_ty = it["in"]
+    else:
+        rty = _intern_type(prog, {"k": "ref", "mut": True, "in": iter_ty, "s": "&mut " + prog.ty_str(iter_ty)})
+        iref = new_local(rty)
+        pre.append(asg(iref, {"k": "ref", "mut": True, "place": {"l": ipl["l"], "p": []}}))
+        self_ty = iter_ty
+    opt_ty = _intern_type(prog, {"k": "adt", "def": "std::option::Option", "args": [item_ty],
+                                 "s": "std::option::Option<%s>" % prog.ty_str(item_ty)})
+    isz = _intern_type(prog, {"k": "prim", "s": "isize"})
+    item_opt = new_local(opt_ty)
+    dsc = new_local(isz)
+    acc = None
+    if kind in ("try_fold", "fold"):
+        acc = new_local(tgt.locals[2])
+        pre.append(asg(acc, use(args[1])))
+    # closure reference handed to every call
+    cref_ty = tgt.locals[1]
+    cref = new_local(cref_ty)
+    if prog.types[cref_ty].get("k") == "ref":
+        pre.append(asg(cref, {"k": "ref", "mut": bool(prog.types[cref_ty].get("mut")), "place": {"l": cpl["l"], "p": []}}))
+    else:
+        pre.append(asg(cref, use({"move": {"l": cpl["l"], "p": []}})))
+    # `next` of this iterator: a crate-local impl is called like any other function
+    self_s = prog.ty_str(prog.strip_refs(self_ty))
+    resolved, rlocal = "std::iter::Iterator::next", False
+    for b2 in prog.bodies.values():
+        if b2.raw.get("impl_trait") == "std::iter::Iterator" and b2.path.endswith("::next") and \
+                (b2.raw.get("impl_self") or "").split("<")[0] == self_s.split("<")[0]:
+            resolved, rlocal = b2.path, True
+    next_callee = {"path": "std::iter::Iterator::next", "local": False, "gargs": [self_ty], "trait": "std::iter::Iterator",
+                   "rk": "item", "resolved": resolved, "rlocal": rlocal}
+    cont = t["t"]
+    dest = t["dest"]
+    unreachable = add_block([], {"k": "unreachable"})
+    hdr = add_block([], None)
+    sw = add_block([asg(dsc, {"k": "discr", "place": {"l": item_opt, "p": []}})], None)
+    blocks[hdr]["term"] = {"k": "call", "callee": next_callee, "args": [{"move": {"l": iref, "p": []}}],
+                           "dest": {"l": item_opt, "p": []}, "t": sw, "unwind": t.get("unwind")}
+    # the inlined closure
+    loff = len(locals_)
+    boff = len(blocks) + 1          # (+1: the block that sets up the call comes first)
+    locals_.extend(tgt.locals)
+    lorigin.extend((tgt.path, j) for j in range(len(tgt.locals)))
+    for n in tgt.raw.get("names", []):
+        names.append({"name": n["name"], "place": _ren(n["place"], loff, 0)})
+    setup = [asg(loff + 1, use({"copy": {"l": cref, "p": []}}))]
+    if acc is not None:
+        setup.append(asg(loff + 2, use({"move": {"l": acc, "p": []}})))
+    setup.append(asg(loff + tgt.argc, use({"move": {"l": item_opt, "p": [
+        {"dc": 1, "vn": "Some"}, {"f": 0, "n": "0", "adt": "std::option::Option", "vn": "Some", "ty": item_ty}]}})))
+    body_entry = add_block(setup, {"k": "goto", "t": boff}, synth=False)
+    assert body_entry + 1 == boff
+    after = boff + len(tgt.blocks)
+    for j, cb in enumerate(tgt.blocks):
+        nb = _ren(cb, loff, boff)
+        if nb["term"]["k"] == "return" and not nb.get("cleanup"):
+            nb["term"] = {"k": "goto", "t": after}
+        blocks.append(nb)
+        origin.append((tgt.path, j))
+        meta.append(m)
+    inlined.add(tgt.path)
+    ret = loff          # the closure's return place
+    rt = prog.types[ret_ty]
+    # after one iteration
+    if kind in ("try_fold", "try_for_each") and rt.get("k") == "adt" and rt.get("def") in (
+            "std::result::Result", "std::ops::ControlFlow", "std::option::Option"):
+        d2 = new_local(isz)
+        is_opt = rt["def"] == "std::option::Option"
+        good_variant = 1 if is_opt else 0
+        good_name = "Some" if is_opt else ("Ok" if rt["def"] == "std::result::Result" else "Continue")
+        a_blk = add_block([asg(d2, {"k": "discr", "place": {"l": ret, "p": []}})], None)
+        assert a_blk == after
+        stm = []
+        if acc is not None:
+            stm.append(asg(acc, use({"move": {"l": ret, "p": [
+                {"dc": good_variant, "vn": good_name},
+                {"f": 0, "n": "0", "adt": rt["def"], "vn": good_name, "ty": tgt.locals[2]}]}})))
+        go_on = add_block(stm, {"k": "goto", "t": hdr})
+        brk = add_block([asg(dest, use({"move": {"l": ret, "p": []}}))], {"k": "goto", "t": cont})
+        blocks[a_blk]["term"] = {"k": "switch", "discr": {"move": {"l": d2, "p": []}},
+                                 "targets": [[good_variant, go_on], [1 - good_variant, brk]], "otherwise": unreachable}
+        done_rv = {"k": "agg", "ak": "adt", "def": rt["def"], "variant": good_variant, "vn": good_name,
+                   "fields": ["0"], "ops": [{"move": {"l": acc, "p": []}}] if acc is not None else
+                   [{"const": {"ty": 1, "v": None}}]}
+        done = add_block([asg(dest, done_rv)], {"k": "goto", "t": cont})
+    else:
+        stm = [asg(acc, use({"move": {"l": ret, "p": []}}))] if (kind == "fold" and acc is not None) else []
+        a_blk = add_block(stm, {"k": "goto", "t": hdr})
+        assert a_blk == after
+        if kind == "fold" and acc is not None:
+            done = add_block([asg(dest, use({"move": {"l": acc, "p": []}}))], {"k": "goto", "t": cont})
+        else:
+            done = add_block([], {"k": "goto", "t": cont})
+    blocks[sw]["term"] = {"k": "switch", "discr": {"move": {"l": dsc, "p": []}},
+                          "targets": [[0, done], [1, body_entry]], "otherwise": unreachable}
+    # the original block now runs the set-up and enters the loop
+    blk["stmts"] = list(blk["stmts"]) + pre
+    blk["term"] = {"k": "goto", "t": hdr}
+    return True
 
 
 def _thread_results(blocks, origin, meta):
@@ -186,9 +366,10 @@ def _thread_results(blocks, origin, meta):
         tracked = {src[0]} | extra
         pol = src[1]
         chain = []
+        decided = {}        # index in chain of a switch block -> the one target the tracked value lets it take
         cur = nxt
         target = None
-        for _ in range(16):
+        for _ in range(48):
             cb = blocks[cur]
             if cb.get("cleanup"):
                 break
@@ -237,15 +418,26 @@ def _thread_results(blocks, origin, meta):
                     want = pol if isinstance(pol, int) else (0 if pol == "ok" else 1)
                     target = listed.get(want, ct["otherwise"])
                     chain.append(cur)
+                    decided[len(chain) - 1] = target
+                    # the value may be tested again further on (the `?` of the caller of the caller): keep following
+                    if len(chain) < 40 and target is not None and not blocks[target].get("cleanup"):
+                        cur = target
+                        continue
                 break
             break
         if target is None or not chain:
             continue
+        # only the part of the chain up to the last decided switch is worth copying
+        last = max(decided)
+        chain = chain[:last + 1]
+        target = decided[last]
         # copy the chain
         base = len(blocks)
         for i, c in enumerate(chain):
             nb = _ren(blocks[c], 0, 0)
-            if i + 1 < len(chain):
+            if i in decided:
+                nb["term"] = {"k": "goto", "t": base + i + 1 if i + 1 < len(chain) else decided[i]}
+            elif i + 1 < len(chain):
                 if nb["term"]["k"] in ("goto", "drop", "call"):
                     nb["term"]["t"] = base + i + 1
             else:
